@@ -4,9 +4,15 @@ open Emboss.Bounds
 #print axioms C05_constant_exact
 #print axioms C05_constant_value_agrees
 #print axioms C05_bounds_functions
+#print axioms C05_size_bounds
 #print axioms C05_gate_implies_one_type
-#print axioms C05_inv_preserved_partial
+#print axioms C05_inv_transfer
+#print axioms C05_inv_transfer_max
+#print axioms C05_inv_leaves
+#print axioms C05_inv_preserved
+#print axioms C05_no_crash_arith
+#print axioms C05_inv_needs_canonical_counterexample
 #print axioms C05_inv_preserved_counterexample
 #print axioms C05_crash_counterexample
-#print axioms C05_tight_linear_partial
+#print axioms C05_tight_linear
 #print axioms C05_tight_choice_counterexample
